@@ -63,7 +63,9 @@ Width(t) == CASE t \in {"i8", "u8", "char8", "bool"} -> 8
               [] t \in {"i64", "u64", "usize"} -> 64
               [] t \in {"i128", "u128"} -> 128
 Signed(t) == t \in SignedTypes
-UB == [t |-> "ub", v |-> <<>>]
+\* undefined behaviour, with the reason (w) it arose
+UBw(w) == [t |-> "ub", v |-> <<>>, w |-> w]
+UB == UBw("ub")
 Uninit == [t |-> "uninit", v |-> <<>>]
 IsUB(x) == x.t = "ub"
 Val(t, v) == [t |-> t, v |-> v]
@@ -75,7 +77,7 @@ IsScalar(x) == x.t \in IntTypes \cup {"bool", "char8"}
 (* Pure operators on scalar values.                                        *)
 (***************************************************************************)
 BinOp(op, a, b) ==
-    IF IsUB(a) \/ IsUB(b) THEN UB
+    IF IsUB(a) THEN a ELSE IF IsUB(b) THEN b
     ELSE LET t == a.t
              w == Width(t)
              x == a.v
@@ -83,23 +85,23 @@ BinOp(op, a, b) ==
          IN CASE op = "+" -> Val(t, Add(x, y))
               [] op = "-" -> Val(t, Sub(x, y))
               [] op = "*" -> Val(t, Mul(x, y))
-              [] op = "/" -> IF IsZero(y) THEN UB
-                             ELSE IF Signed(t) THEN (IF x = MinSigned(w) /\ y = Ones(w) THEN UB ELSE Val(t, SDiv(x, y)))
+              [] op = "/" -> IF IsZero(y) THEN UBw("division by zero")
+                             ELSE IF Signed(t) THEN (IF x = MinSigned(w) /\ y = Ones(w) THEN UBw("MIN / -1") ELSE Val(t, SDiv(x, y)))
                              ELSE Val(t, UDiv(x, y))
-              [] op = "%" -> IF IsZero(y) THEN UB
-                             ELSE IF Signed(t) THEN (IF x = MinSigned(w) /\ y = Ones(w) THEN UB ELSE Val(t, SRem(x, y)))
+              [] op = "%" -> IF IsZero(y) THEN UBw("division by zero")
+                             ELSE IF Signed(t) THEN (IF x = MinSigned(w) /\ y = Ones(w) THEN UBw("MIN / -1") ELSE Val(t, SRem(x, y)))
                              ELSE Val(t, URem(x, y))
               [] op = "&" -> Val(t, WAnd(x, y))
               [] op = "|" -> Val(t, WOr(x, y))
               [] op = "^" -> Val(t, WXor(x, y))
-              [] op = "<<" -> IF ~FitsNat(y) \/ ToNat(y) >= w THEN UB ELSE Val(t, Shl(x, ToNat(y)))
-              [] op = ">>" -> IF ~FitsNat(y) \/ ToNat(y) >= w THEN UB ELSE Val(t, LShr(x, ToNat(y)))
+              [] op = "<<" -> IF ~FitsNat(y) \/ ToNat(y) >= w THEN UBw("oversized shift") ELSE Val(t, Shl(x, ToNat(y)))
+              [] op = ">>" -> IF ~FitsNat(y) \/ ToNat(y) >= w THEN UBw("oversized shift") ELSE Val(t, LShr(x, ToNat(y)))
 UnOp(op, a) ==
-    IF IsUB(a) THEN UB
+    IF IsUB(a) THEN a
     ELSE CASE op = "-" -> Val(a.t, Neg(a.v))
            [] op = "!" -> Val(a.t, WNot(a.v))
 Compare(op, a, b) ==
-    IF IsUB(a) \/ IsUB(b) THEN UB
+    IF IsUB(a) THEN a ELSE IF IsUB(b) THEN b
     ELSE LET s == Signed(a.t)
              x == a.v
              y == b.v
@@ -110,7 +112,7 @@ Compare(op, a, b) ==
                       [] op = "<=" -> IF s THEN SLe(x, y) ELSE ULe(x, y)
                       [] op = ">=" -> IF s THEN SLe(y, x) ELSE ULe(y, x))
 \* `e as T`: truncate, or extend by the signedness of the source type; bool extends with zeros
-CastTo(t, a) == IF IsUB(a) THEN UB ELSE Val(t, Resize(a.v, Width(t), Signed(a.t)))
+CastTo(t, a) == IF IsUB(a) THEN a ELSE Val(t, Resize(a.v, Width(t), Signed(a.t)))
 
 (***************************************************************************)
 (* Control flow on flat bodies: the declarative definitions (FlatBody's    *)
@@ -217,6 +219,8 @@ Lookup(env, x) == LET S == {i \in 1..Len(env) : env[i].x = x}
 Top(m) == m.frames[Len(m.frames)]
 SetTop(m, fr) == [m EXCEPT !.frames[Len(m.frames)] = fr]
 Stop(m, s) == [m EXCEPT !.status = s]
+\* stop on undefined behaviour, remembering the reason carried by the value
+StopUB(m, x) == [m EXCEPT !.status = "ub", !.why = IF "w" \in DOMAIN x THEN x.w ELSE "ub"]
 Flag(m, what) == [m EXCEPT !.bad = Append(@, what)]
 FrameIdx(m, fid) == LET S == {i \in 1..Len(m.frames) : m.frames[i].id = fid} IN IF S = {} THEN 0 ELSE CHOOSE i \in S : TRUE
 EnvOf(m, fid) == IF fid = 0 THEN m.glob ELSE LET i == FrameIdx(m, fid) IN IF i = 0 THEN <<>> ELSE m.frames[i].env
@@ -240,7 +244,7 @@ ReadPlace(m, pl) ==
     IF pl.t # "ptr" THEN UB
     ELSE LET env == EnvOf(m, pl.fr)
              i == Lookup(env, pl.x)
-         IN IF i = 0 THEN UB ELSE IF env[i].u # pl.u THEN UB ELSE ReadAt(env[i].v, pl.p)
+         IN IF i = 0 THEN UBw("dangling pointer") ELSE IF env[i].u # pl.u THEN UBw("dangling pointer") ELSE ReadAt(env[i].v, pl.p)
 WritePlace(m, pl, new) ==
     LET f == FrameIdx(m, pl.fr)
         i == Lookup(m.frames[f].env, pl.x)
@@ -263,6 +267,8 @@ IsRefExpr(e) == e.k \in {"var", "idx", "ref"}
 
 R(m, x) == [m |-> m, v |-> x]
 Alive(r) == r.m.status = "run" /\ ~IsUB(r.v)
+\* hand a failure on (keeping its reason)
+Dead(r) == [m |-> r.m, v |-> IF IsUB(r.v) THEN r.v ELSE UB]
 RECURSIVE PtrsIn(_), Closure(_, _, _), EnvsOf(_, _)
 PtrsIn(x) == IF x.t = "ptr" THEN {x}
              ELSE IF x.t \in {"array", "struct"} THEN UNION {PtrsIn(x.v[i]) : i \in 1..Len(x.v)} ELSE {}
@@ -294,39 +300,39 @@ Steps(prog, m, pl, steps, i) ==
             THEN LET j == IF bv.t = "struct" THEN MemberIndex(prog, bv.n, s.m) ELSE 0
                  IN IF j = 0 THEN R(m, UB) ELSE Steps(prog, m, [base EXCEPT !.p = Append(@, j)], steps, i + 1)
             ELSE LET ix == Eval(prog, m, s.e)
-                 IN IF ~Alive(ix) THEN R(ix.m, UB)
+                 IN IF ~Alive(ix) THEN Dead(ix)
                     ELSE IF bv.t # "array" \/ ~IsScalar(ix.v) THEN R(ix.m, UB)
-                    ELSE IF ~FitsNat(ix.v.v) THEN R(ix.m, UB)
-                    ELSE IF ToNat(ix.v.v) >= Len(bv.v) THEN R(ix.m, UB)
+                    ELSE IF ~FitsNat(ix.v.v) THEN R(ix.m, UBw("index out of bounds"))
+                    ELSE IF ToNat(ix.v.v) >= Len(bv.v) THEN R(ix.m, UBw("index out of bounds"))
                     ELSE Steps(prog, ix.m, [base EXCEPT !.p = Append(@, ToNat(ix.v.v) + 1)], steps, i + 1)
 \* the place a reference expression denotes after its steps (before the final dereferences)
 RefPlace(prog, m, r) == Steps(prog, m, VarPlace(m, r.x), r.steps, 1)
 \* the value of a reference expression with r.addr address markers
 RefValue(prog, m, r) ==
     LET a == RefPlace(prog, m, r)
-    IN IF ~Alive(a) THEN R(a.m, UB)
+    IN IF ~Alive(a) THEN Dead(a)
        ELSE LET k == PtrDepth(a.m, a.v)
             IN IF r.addr > k + 1 THEN R(a.m, UB)
                ELSE IF r.addr = k + 1 THEN R(a.m, a.v)
                ELSE LET x == ReadPlace(a.m, Follow(a.m, a.v, k - r.addr))
-                    IN IF x.t = "uninit" THEN R(a.m, UB) ELSE R(a.m, x)
+                    IN IF x.t = "uninit" THEN R(a.m, UBw("uninitialised read")) ELSE R(a.m, x)
 
 Eval(prog, m, e) ==
     CASE e.k = "lit" -> R(m, Val(e.t, e.v))
       [] e.k \in {"var", "idx", "ref"} -> RefValue(prog, m, AsRef(e))
       [] e.k = "paren" -> Eval(prog, m, e.e)
       [] e.k = "bin" -> LET a == Eval(prog, m, e.l)
-                        IN IF ~Alive(a) THEN R(a.m, UB)
+                        IN IF ~Alive(a) THEN Dead(a)
                            ELSE LET b == Eval(prog, a.m, e.r)
-                                IN IF ~Alive(b) THEN R(b.m, UB) ELSE R(b.m, BinOp(e.op, a.v, b.v))
-      [] e.k = "un" -> LET a == Eval(prog, m, e.e) IN IF ~Alive(a) THEN R(a.m, UB) ELSE R(a.m, UnOp(e.op, a.v))
-      [] e.k = "as" -> LET a == Eval(prog, m, e.e) IN IF ~Alive(a) THEN R(a.m, UB) ELSE R(a.m, CastTo(e.t, a.v))
+                                IN IF ~Alive(b) THEN Dead(b) ELSE R(b.m, BinOp(e.op, a.v, b.v))
+      [] e.k = "un" -> LET a == Eval(prog, m, e.e) IN IF ~Alive(a) THEN Dead(a) ELSE R(a.m, UnOp(e.op, a.v))
+      [] e.k = "as" -> LET a == Eval(prog, m, e.e) IN IF ~Alive(a) THEN Dead(a) ELSE R(a.m, CastTo(e.t, a.v))
       [] e.k = "arr" -> LET a == EvalAll(prog, m, e.es, 1)
                         IN IF ~a.ok THEN R(a.m, UB) ELSE R(a.m, [t |-> "array", v |-> a.vs])
       [] e.k = "st" -> LET a == Fields(prog, m, e.n, e.fs, 1, UninitMembers(prog, StructDecl(prog, e.n).ms, 1))
                        IN IF ~a.ok THEN R(a.m, UB) ELSE R(a.m, [t |-> "struct", n |-> e.n, v |-> a.vs])
       [] e.k = "len" -> LET a == RefPlace(prog, m, AsRef(e))
-                        IN IF ~Alive(a) THEN R(a.m, UB)
+                        IN IF ~Alive(a) THEN Dead(a)
                            ELSE LET bv == ReadPlace(a.m, FullDeref(a.m, a.v))
                                 IN IF bv.t = "array" THEN R(a.m, Val("usize", FromNat(Len(bv.v), 64))) ELSE R(a.m, UB)
       [] e.k = "sizeof" -> R(m, SizeOfValue(prog, e.ty))
@@ -355,8 +361,8 @@ Fields(prog, m, n, fs, i, acc) ==
             ELSE Fields(prog, a.m, n, fs, i + 1, [acc EXCEPT ![j] = a.v])
 EvalCond(prog, m, c) ==
     LET a == Eval(prog, m, c.l)
-    IN IF ~Alive(a) THEN R(a.m, UB)
-       ELSE LET b == Eval(prog, a.m, c.r) IN IF ~Alive(b) THEN R(b.m, UB) ELSE R(b.m, Compare(c.op, a.v, b.v))
+    IN IF ~Alive(a) THEN Dead(a)
+       ELSE LET b == Eval(prog, a.m, c.r) IN IF ~Alive(b) THEN Dead(b) ELSE R(b.m, Compare(c.op, a.v, b.v))
 
 \* bind arguments to parameters, left to right; -> [m, ok, env, seeds (the addresses the caller wrote)]
 BindArgs(prog, m, ps, args, i, env, fid, seeds) ==
@@ -395,12 +401,12 @@ Next1(m) == SetTop(m, [Top(m) EXCEPT !.pc = @ + 1])
 Assign(prog, m, r, val) ==
     LET a == RefPlace(prog, m, r)
     IN IF a.m.status # "run" THEN a.m
-       ELSE IF IsUB(a.v) THEN Stop(a.m, "ub")
+       ELSE IF IsUB(a.v) THEN StopUB(a.m, a.v)
        ELSE LET k == PtrDepth(a.m, a.v)
                 target == IF r.addr > k THEN UB ELSE Follow(a.m, a.v, k - r.addr)
             IN IF r.addr > k THEN Stop(a.m, "stuck")
-               ELSE IF target.t # "ptr" THEN Stop(a.m, "ub")
-               ELSE IF IsUB(ReadPlace(a.m, target)) THEN Stop(a.m, "ub")
+               ELSE IF target.t # "ptr" THEN StopUB(a.m, target)
+               ELSE IF IsUB(ReadPlace(a.m, target)) THEN StopUB(a.m, ReadPlace(a.m, target))
                ELSE IF target.ro THEN Stop(a.m, "illegal")
                ELSE LET m2 == WritePlace(a.m, target, val)
                     IN IF Conforms(prog, val, DeclaredTypeAt(prog, a.m, target)) THEN m2 ELSE Flag(m2, "width")
@@ -416,7 +422,7 @@ MStep(prog, m) ==
        THEN \* return
             LET r == IF fn.ret.k = "void" THEN R(m1, Uninit) ELSE Eval(prog, m1, fn.res)
             IN IF r.m.status # "run" THEN r.m
-               ELSE IF IsUB(r.v) THEN Stop(r.m, "ub")
+               ELSE IF IsUB(r.v) THEN StopUB(r.m, r.v)
                ELSE LET mm == r.m
                         n == Len(mm.frames)
                         me == Top(mm)
@@ -438,13 +444,13 @@ MStep(prog, m) ==
               [] it.k \in {"IO", "EIO"} ->
                    LET c == EvalCond(prog, m1, it.c)
                    IN IF c.m.status # "run" THEN c.m
-                      ELSE IF IsUB(c.v) THEN Stop(c.m, "ub")
+                      ELSE IF IsUB(c.v) THEN StopUB(c.m, c.v)
                       ELSE IF Truth(c.v) THEN Next1(c.m) ELSE Jump(c.m, FalsePath(b, pc))
               [] it.k \in {"IG", "EIG", "G", "EG"} ->
                    LET c == IF it.k \in {"G", "EG"} THEN R(m1, BoolVal(TRUE)) ELSE EvalCond(prog, m1, it.c)
                        q == TargetFast(b, pc)
                    IN IF c.m.status # "run" THEN c.m
-                      ELSE IF IsUB(c.v) THEN Stop(c.m, "ub")
+                      ELSE IF IsUB(c.v) THEN StopUB(c.m, c.v)
                       ELSE IF ~Truth(c.v) THEN Next1(c.m)
                       ELSE IF q = 0 THEN Stop(c.m, "stuck")
                       ELSE LET j == Jump(c.m, q)
@@ -455,7 +461,7 @@ MStep(prog, m) ==
                    LET r == IF "e" \in DOMAIN it THEN Eval(prog, m1, it.e) ELSE R(m1, UninitOf(prog, it.ty))
                        o == BlkFast(b, pc)
                    IN IF r.m.status # "run" THEN r.m
-                      ELSE IF IsUB(r.v) THEN Stop(r.m, "ub")
+                      ELSE IF IsUB(r.v) THEN StopUB(r.m, r.v)
                       ELSE LET mm == r.m
                                m2 == Next1([mm EXCEPT !.next = @ + 1,
                                                       !.frames[Len(mm.frames)].env = Append(@, Entry(it.x, r.v, it.ty, TRUE, mm.next, o, EndOf(b, o)))])
@@ -463,12 +469,12 @@ MStep(prog, m) ==
               [] it.k \in {"S", "SI", "A"} ->
                    LET r == Eval(prog, m1, it.e)
                    IN IF r.m.status # "run" THEN r.m
-                      ELSE IF IsUB(r.v) THEN Stop(r.m, "ub")
+                      ELSE IF IsUB(r.v) THEN StopUB(r.m, r.v)
                       ELSE LET m2 == Assign(prog, r.m, IF it.k = "A" THEN it.r ELSE AsRef(it), r.v)
                            IN IF m2.status # "run" THEN m2 ELSE Next1(m2)
               [] it.k = "P" -> LET r == Eval(prog, m1, it.e)
                                IN IF r.m.status # "run" THEN r.m
-                                  ELSE IF IsUB(r.v) THEN Stop(r.m, "ub")
+                                  ELSE IF IsUB(r.v) THEN StopUB(r.m, r.v)
                                   ELSE IF ~IsScalar(r.v) THEN Stop(r.m, "stuck")
                                   ELSE [Next1(r.m) EXCEPT !.out = Append(@, r.v)]
               [] it.k = "CALL" ->
@@ -489,11 +495,11 @@ ConstEnv(prog, cs, i, m) ==
     IF i > Len(cs) \/ m.status # "run" THEN m
     ELSE LET r == Eval(prog, m, cs[i].e)
              ty == IF "ty" \in DOMAIN cs[i] THEN cs[i].ty ELSE [k |-> "prim", t |-> cs[i].t]
-         IN IF ~Alive(r) THEN Stop(r.m, "ub")
+         IN IF r.m.status # "run" THEN r.m ELSE IF IsUB(r.v) THEN StopUB(r.m, r.v)
             ELSE ConstEnv(prog, cs, i + 1, [r.m EXCEPT !.glob = Append(@, Entry(cs[i].x, r.v, ty, FALSE, 0, 0, 0))])
 MInit(prog, fuel) ==
     LET m0 == [status |-> "run", frames |-> <<>>, glob |-> <<>>, out |-> <<>>, fuel |-> fuel, exit |-> <<>>,
-               next |-> 2, rv |-> Uninit, bad |-> <<>>]
+               next |-> 2, rv |-> Uninit, bad |-> <<>>, why |-> ""]
         g == ConstEnv(prog, prog.consts, 1, m0)
     IN [g EXCEPT !.frames = <<[id |-> 1, f |-> FnIndex(prog, "main"), pc |-> 1, env |-> <<>>, d |-> "", nested |-> FALSE,
                               snap |-> <<>>, reach |-> {}]>>]
